@@ -110,7 +110,8 @@ func genArchiveTree(rng *rand.Rand, k int) (*tree, string) {
 		t.Files["top.bin"] = randBytes(rng, 10)
 		t.Symlinks["nested/link-to-deep"] = "x/y/z/deep.bin"
 		t.Symlinks["dangling"] = "nowhere"
-		desc = "nested-empty-links"
+		oddNamesTree(t, rng)
+		desc = "nested-empty-links-odd-names"
 	default: // one large first entry, then small ones
 		t.Files["a_big.bin"] = randBytes(rng, 3<<20)
 		for i := 0; i < 12; i++ {
